@@ -3,8 +3,8 @@
    Codec/FrameInspectProofs.v).  Each theorem is followed by Print Assumptions. *)
 From Coq Require Import ZArith List Bool.
 From ZV.Gen Require Gen_Tables.
-From ZV.Mem Require Import CompressBound CompressBoundProofs.
-From ZV.Codec Require Import FrameInspect FrameInspectProofs.
+From ZV.Mem Require Import CompressBound CompressBoundProofs CompressCalls CompressCallsProofs.
+From ZV.Codec Require Import FrameInspect FrameInspectProofs FrameInspectRobust.
 Import ListNotations.
 Local Open Scope Z_scope.
 
@@ -163,3 +163,151 @@ Theorem inplace_margin_refuted :
   inplace_decode expanding_witness (regen_frames expanding_witness + 4063) = None.
 Proof. exact inplace_margin_refuted_lemma. Qed.
 Print Assumptions inplace_margin_refuted.
+
+(* ======================= call histories and multi-threaded jobs (coq/Mem/CompressCalls.v) ======================= *)
+
+(* Any history of ZSTD_compressContinue calls closed by ZSTD_compressEnd, all writing one after the other into ONE
+   buffer: if the buffer holds header + every chunk raw with its block headers + the epilogue (+ what earlier calls
+   saved, which the pre-splitter may spend), every guard of every call passes and the total stays within that budget.
+   For every chunk-length list, every block compressor / splitter obeying the contracts, every start state. *)
+Theorem buffer_less_history_sufficient : forall fuel bsMax hs chk calls st cap written,
+  calls <> [] ->
+  Forall (call_ok fuel) calls -> 0 < bsMax <= KB128 -> 0 <= hs <= FHS_MAX ->
+  cs_stage st <> StEnding ->
+  (cs_stage st = StInit -> FHS_MAX <= cap) ->
+  hdr_of st hs + need calls bsMax + epilogue_room calls chk + Z.max (savings_of st) 0 <= cap ->
+  exists W cap' st',
+    compress_calls fuel bsMax hs chk st calls cap written = CDone W cap' st' /\
+    cap' = cap - (W - written) /\ 0 <= cap' /\ written < W /\
+    W <= written + Z.max (savings_of st) 0 + hdr_of st hs + need calls bsMax + epilogue_cost calls chk.
+Proof. exact compress_calls_succeed. Qed.
+Print Assumptions buffer_less_history_sufficient.
+
+(* ... and for ANY capacity a history that completes stayed inside the buffer (error, never overrun; model level) *)
+Theorem buffer_less_history_within_capacity : forall fuel bsMax hs chk calls st cap written W cap' st',
+  Forall (fun c => bc_respects_capacity (c_bc c)) calls -> 0 <= hs <= FHS_MAX -> 0 <= cap ->
+  compress_calls fuel bsMax hs chk st calls cap written = CDone W cap' st' ->
+  cap' = cap - (W - written) /\ 0 <= cap' /\ written <= W.
+Proof. exact compress_calls_within. Qed.
+Print Assumptions buffer_less_history_within_capacity.
+
+(* A ZSTDMT compression job (first / middle / last, with or without frame checksum, source of n <= T bytes fed in
+   512 KiB chunks) writing into a buffer of ZSTD_compressBound(T) bytes never runs out of room, and the 4-byte
+   checksum that ZSTDMT_flushProduced stores after the job's output WITHOUT a capacity test stays inside the buffer
+   (the result is never COverrun / CTooSmall). *)
+Theorem mt_job_buffer_suffices : forall fuel bsMax hs chkFrame first last calls n T,
+  Forall (fun c => bc_contract (c_bc c) /\ split_contract (c_split c)) calls ->
+  map c_len calls = mt_chunks n ->
+  0 <= n <= T -> T < MAX_INPUT -> MT_CHUNK <= Z.of_nat fuel ->
+  0 < bsMax <= BLOCKSIZE_MAX -> (BLOCKSIZE_MAX_MIN <= bsMax \/ n <= bsMax) ->
+  0 <= hs <= FHS_MAX ->
+  (last = false -> 0 < n) ->
+  exists w cap' st',
+    mt_job fuel bsMax hs chkFrame first last calls n (bound T) = CDone w cap' st' /\
+    cap' = bound T - w /\ 0 <= cap' /\ w <= mt_job_worst bsMax hs chkFrame first last n.
+Proof. exact mt_job_fits_lemma. Qed.
+Print Assumptions mt_job_buffer_suffices.
+
+Theorem mt_job_hypotheses_inhabited : forall n,
+  Forall (fun c => bc_contract (c_bc c) /\ split_contract (c_split c)) (map raw_call (mt_chunks n)) /\
+  map c_len (map raw_call (mt_chunks n)) = mt_chunks n.
+Proof. exact raw_calls_ok. Qed.
+Print Assumptions mt_job_hypotheses_inhabited.
+
+(* The whole multi-threaded frame (every job raw, each with its own block framing, header, last empty block,
+   checksum) fits ZSTD_compressBound of the whole input, for every cut into jobs of at least 128 KiB (all but the
+   last) and every block size >= 1 KiB. *)
+Theorem mt_frame_fits_compressBound : forall bs hs chk jobs,
+  1024 <= bs -> hs <= FHS_MAX -> jobs_ok jobs -> sumz jobs < MAX_INPUT ->
+  mt_frame_worst bs hs chk true jobs <= bound (sumz jobs).
+Proof. exact mt_frame_worst_le_bound. Qed.
+Print Assumptions mt_frame_fits_compressBound.
+
+(* ======================= inspectors on ARBITRARY byte strings (coq/Codec/FrameInspectRobust.v) ======================= *)
+
+(* whatever the bytes are: a reported compressed size is positive and never exceeds the source *)
+Theorem frame_size_info_within_source : forall src i, bytes_ok src ->
+  find_frame_size_info src = Some i -> 0 < fsi_csize i <= len src /\ 0 <= fsi_nb i.
+Proof. exact find_frame_size_info_within. Qed.
+Print Assumptions frame_size_info_within_source.
+
+Theorem frame_compressed_size_within_source : forall src s, bytes_ok src ->
+  find_frame_compressed_size src = Some s -> 0 < s <= len src.
+Proof. exact find_frame_compressed_size_within. Qed.
+Print Assumptions frame_compressed_size_within_source.
+
+(* ... and the answer is determined by those bytes alone: replacing everything after them changes nothing
+   (model-level form of "never reads beyond the frame it delimits") *)
+Theorem frame_size_info_self_delimiting : forall p r t i,
+  bytes_ok (p ++ r) -> find_frame_size_info (p ++ r) = Some i -> len p = fsi_csize i ->
+  find_frame_size_info (p ++ t) = Some i.
+Proof. exact find_frame_size_info_prefix. Qed.
+Print Assumptions frame_size_info_self_delimiting.
+
+(* the multi-frame walks make progress on every input: their fuel is never the reason for an answer *)
+Theorem block_walk_fuel_irrelevant : forall f1 f2 src consumed nb,
+  bytes_ok src -> (length src < length f1)%nat -> (length src < length f2)%nat ->
+  walk_blocks f1 src consumed nb = walk_blocks f2 src consumed nb.
+Proof. exact walk_blocks_fuel. Qed.
+Print Assumptions block_walk_fuel_irrelevant.
+
+Theorem decompress_bound_total : forall fuel src, bytes_ok src -> (length src <= length fuel)%nat ->
+  decompress_bound_loop fuel src 0 = decompress_bound src.
+Proof. exact decompress_bound_fuel_irrelevant. Qed.
+Print Assumptions decompress_bound_total.
+
+Theorem decompression_margin_total : forall fuel src, bytes_ok src -> (length src <= length fuel)%nat ->
+  decompression_margin_loop fuel src 0 0 = decompression_margin src.
+Proof. exact decompression_margin_fuel_irrelevant. Qed.
+Print Assumptions decompression_margin_total.
+
+(* when ZSTD_decompressBound answers, the frames it walked tile the source exactly (sizes > 0 summing to srcSize) *)
+Theorem decompress_bound_walk_tiles_source : forall src v, bytes_ok src -> decompress_bound src = Some v ->
+  exists sizes, Forall (fun s => 0 < s) sizes /\ fold_right Z.add 0 sizes = len src.
+Proof. exact decompress_bound_some_tiles. Qed.
+Print Assumptions decompress_bound_walk_tiles_source.
+
+(* skippable frames: the writer needs exactly payload + 8 bytes; the reader returns payload and variant iff the
+   destination can hold the payload, and never reports more than the capacity *)
+Theorem skippable_write_capacity : forall cap v p, 0 <= v <= 15 -> len p + SKIPHDR < W32 ->
+  write_skippable_frame cap (len p) v =
+  if cap <? len p + SKIPHDR then None else Some (len (ser_frame (SFrame v p))).
+Proof. exact write_skippable_frame_spec. Qed.
+Print Assumptions skippable_write_capacity.
+
+Theorem skippable_read_capacity : forall cap v p rest, 0 <= v <= 15 -> len p + SKIPHDR < W32 ->
+  read_skippable_frame cap (ser_frame (SFrame v p) ++ rest) =
+  if len p >? cap then None else Some (len p, v).
+Proof. exact read_skippable_frame_spec. Qed.
+Print Assumptions skippable_read_capacity.
+
+Theorem skippable_read_within_capacity : forall cap src n v,
+  read_skippable_frame cap src = Some (n, v) -> n <= cap.
+Proof. exact read_skippable_frame_within. Qed.
+Print Assumptions skippable_read_within_capacity.
+
+(* ZSTD_decompressBound over a concatenation, for ALL byte strings: when the walk over [a] completes with va, the walk
+   over a ++ b is the walk over b started at va *)
+Theorem decompress_bound_concatenation : forall a b va, bytes_ok (a ++ b) ->
+  decompress_bound a = Some va ->
+  decompress_bound (a ++ b) = decompress_bound_loop b b va.
+Proof. exact decompress_bound_concat. Qed.
+Print Assumptions decompress_bound_concatenation.
+
+(* in-place decoding is sound for EVERY buffer at least as large as decoded size + ZSTD_decompressionMargin *)
+Theorem inplace_margin_any_larger_buffer : forall fl B,
+  Forall wf_frame fl -> Forall non_expanding fl ->
+  regen_frames fl + margin_of fl <= B ->
+  inplace_decode fl B = Some (regen_frames fl, B).
+Proof. exact inplace_any_larger_buffer. Qed.
+Print Assumptions inplace_margin_any_larger_buffer.
+
+(* ZSTD_DECOMPRESSION_MARGIN(originalSize, blockSize): sound for a single frame that regenerates originalSize > 0 bytes in
+   at most ceil(originalSize / blockSize) non-expanding blocks and whose block-size limit is at most blockSize *)
+Theorem inplace_macro_margin : forall h bl ck bs B,
+  wf_frame (ZFrame h bl ck) -> Forall non_expanding_blk bl -> 0 < bs -> bsmax_of h <= bs ->
+  0 < regen_blocks bl -> len bl <= (regen_blocks bl + bs - 1) / bs ->
+  regen_blocks bl + DECOMPRESSION_MARGIN (regen_blocks bl) bs <= B ->
+  inplace_decode [ZFrame h bl ck] B = Some (regen_blocks bl, B).
+Proof. exact inplace_macro_margin_sound. Qed.
+Print Assumptions inplace_macro_margin.
